@@ -11,7 +11,7 @@
 EXTENDS Render, Json
 CONSTANTS MaxDepth,   \* nesting depth below the root field
           DeepAll,    \* "quick": beyond depth 1 only DeepSeed seeds, QuickWraps at both levels;
-                      \* "thorough": the six GraphQL leaf kinds get every wrap at level 1 and ThoroughWraps2 at level 2 (other seeds as quick);
+                      \* "thorough": the six GraphQL leaf kinds (menu entries 1..6) get every wrap at level 1 and ThoroughWraps2 at level 2 (other seeds as quick);
                       \* "sim": every wrap at every level (simulation)
           SeedKinds   \* leaf kinds to start from (partitions the exhaustive run)
 VARIABLES T, j, d, deep,   \* deep: "no" | "qw" | "full" -- which wraps may still be applied beyond depth 1
@@ -21,7 +21,8 @@ vars == <<T, j, d, deep, rb>>
 OrigKinds == {"String", "Int", "Float", "Boolean", "Enum", "Scalar"}
 Kinds == <<"String", "Int", "Float", "Boolean", "Enum", "Scalar", "BigInt", "Custom",
            "StaticString", "EmptyObject", "EmptyArray", "Null">>
-EnumT(n) == EnumNode(n, "Color", <<"RED", "GREEN", "HID">>, <<"HID">>)
+\* several inaccessible values, declared in non-lexicographic order (the planner keeps schema declaration order)
+EnumT(n) == EnumNode(n, "Color", <<"RED", "REVIEW", "GREEN", "INTERNAL", "HID", "ARCHIVED">>, <<"REVIEW", "INTERNAL", "HID", "ARCHIVED">>)
 LeafT(k, n) == CASE k = "Enum" -> EnumT(n)
                  [] k = "StaticString" -> Node(k, n, <<>>, <<>>, <<>>, "static value", <<>>, <<>>)
                  [] OTHER -> Leaf(k, n)
@@ -39,11 +40,13 @@ Good(k) == CASE k = "String" -> JS("s")
 \* payload menu of a leaf position: 1 absent, 2 null, 3 right kind, 4.. other right / wrong kinds
 Extra(k) ==
   CASE k = "String" -> <<JI(5), JB(TRUE), JO(<<"x">>, <<JI(1)>>), JL(<<JS("q")>>), JS("")>>
-    [] k = "Int" -> <<JF("1.5"), JG("2147483648"), JG("1e100"), JS("7"), JB(TRUE), JL(<<JI(1)>>), JI(2147483647), JI(0)>>
+    [] k = "Int" -> <<JF("1.5"), JG("2147483648"), JG("1e100"), JS("7"), JB(TRUE), JL(<<JI(1)>>), JI(2147483647), JI(0),
+                      JI(-2147483647 - 1), JG("-2147483649")>>          \* the exact 32-bit boundaries: MinInt32 valid, MinInt32 - 1 not
     [] k = "Float" -> <<JS("1.5"), JB(FALSE), JO(<<>>, <<>>), JI(3), JG("1e100")>>
     [] k = "Boolean" -> <<JS("true"), JI(1), JL(<<>>), JB(FALSE)>>
     [] k = "Enum" -> <<JS("ZZ"), JS("HID"), JI(0), JB(TRUE), JO(<<"x">>, <<JI(1)>>), JS("GREEN"),
-                       JS("red"), JS("Green"), JS("hid")>>   \* differ from a declared (valid / inaccessible) value only in letter case
+                       JS("red"), JS("Green"), JS("hid"),
+                       JS("REVIEW"), JS("INTERNAL"), JS("ARCHIVED")>>   \* every inaccessible value   \* differ from a declared (valid / inaccessible) value only in letter case
     [] k = "Scalar" -> <<JI(5), JF("2.5"), JB(FALSE), JO(<<"x">>, <<JI(1)>>), JL(<<JS("q"), JNull>>)>>
     [] k = "BigInt" -> <<JI(5), JS("9"), JF("1.5")>>
     [] k = "Custom" -> <<JI(5), JO(<<"x">>, <<JI(1)>>), JS("")>>        \* the custom resolver rejects non-strings
@@ -169,7 +172,7 @@ Init == \E k \in Range(Kinds) \cap SeedKinds, n \in BOOLEAN :
             /\ d = 0
             /\ rb \in (IF k = "String" /\ m = 2 THEN BOOLEAN ELSE {FALSE})
             /\ deep = IF DeepAll = "sim" THEN "full"
-                      ELSE IF DeepAll = "thorough" /\ k \in OrigKinds /\ ~rb THEN "full"
+                      ELSE IF DeepAll = "thorough" /\ k \in OrigKinds /\ ~rb /\ m <= 6 THEN "full"   \* the first six menu entries of a kind
                       ELSE IF DeepSeed(k, n, m) THEN "qw" ELSE "no"
 
 \* wraps applied beyond depth 1 for "qw" seeds (both levels): one representative of every family (17)
